@@ -10,7 +10,7 @@ import re
 from . import common as C
 from .simengine import lockstep, monitors, resizestep, sweep, world as W
 
-LOCKSTEP_FAMILIES = {"killwith", "cancelshut", "concurrent", "respawn", "saturate", "mixed", "notimeout", "contain", "crash", "kill", "init", "leak", "break", "graceful", "timeouts"}
+LOCKSTEP_FAMILIES = {"saturatetmo", "killwith", "cancelshut", "concurrent", "respawn", "saturate", "mixed", "notimeout", "contain", "crash", "kill", "init", "leak", "break", "graceful", "timeouts"}
 
 
 def _sig(rec):
@@ -35,7 +35,7 @@ def run_job(job):
         chooser = W.replay_chooser(job["schedule"], then=W.random_chooser(job["seed"], p_timeout=pt, p_crash=0.0))
     elif job.get("starve_bodies"):
         LONG_FROM[0] = scen.get("long_from", 0)
-        chooser = starving_chooser(job["seed"])
+        chooser = starving_chooser(job["seed"], p_timeout=scen["sched"].get("p_timeout", 0.0) if scen.get("timeout") else 0.0)
     elif job.get("delay"):
         chooser = W.delay_chooser(job["seed"], p_timeout=min(0.1, scen["sched"].get("p_timeout", 0.0)),
                                   crash=scen["sched"].get("p_crash", 0.0) > 0)
@@ -97,11 +97,11 @@ def run_job(job):
 LONG_FROM = [0]
 
 
-def starving_chooser(seed):
+def starving_chooser(seed, p_timeout=0.0):
     """never lets a task body finish: what happens must not depend on the bodies"""
     # half of the starved runs use priority scheduling (e.g. all submissions racing ahead of the workers)
-    base = W.pct_chooser(seed, depth=1 + seed % 3, p_timeout=0.0, p_crash=0.0) if seed % 2 else \
-        W.random_chooser(seed, p_timeout=0.0, p_crash=0.0)
+    base = W.pct_chooser(seed, depth=1 + seed % 3, p_timeout=p_timeout, p_crash=0.0) if seed % 2 else \
+        W.random_chooser(seed, p_timeout=p_timeout, p_crash=0.0)
 
     def factory(eng):
         ch = base(eng)
@@ -157,10 +157,10 @@ class E1Part:
                 jobs.append({"family": fam, "seed": base + i, "props": self.props, "futyield": fy,
                              "lockstep": self.lockstep_on and fam in LOCKSTEP_FAMILIES and not fy,
                              "starve_bodies": bool(self.starve and i % self.starve == 0
-                                                   and fam in ("kill", "killwith", "saturate", "saturateleak", "satreuse")),
+                                                   and fam in ("kill", "killwith", "saturate", "saturatetmo", "saturateleak", "satreuse")),
                              "pct": i % 5 in (1, 3) and fam not in ("saturate",),
                              "delay": (i % 5 == 4 or (i % 5 == 2 and fam.startswith("reuse"))) and not fy
-                                      and fam not in ("saturate", "saturateleak", "satreuse"),
+                                      and fam not in ("saturate", "saturatetmo", "saturateleak", "satreuse"),
                              "sample": i == 0})
         return jobs
 
